@@ -337,7 +337,9 @@ Theorem cell_poly_dissection p others : forall box, (forall q, In q others -> ~ 
 Proof.
   induction others as [|q r IH]; intros box Hne.
   - simpl. unfold cell_poly. simpl. ring.
-  - rewrite cell_poly_cons. simpl discarded. simpl map. simpl qsum2.
+  - rewrite cell_poly_cons.
+    change (qsum2 (map shoelace2 (discarded box p (q :: r))))
+      with (shoelace2 (clip (negh (bisector p q)) box) + qsum2 (map shoelace2 (discarded (clip (bisector p q) box) p r))).
     rewrite <- (clip_area_additive (bisector p q) box) by (apply n2_bisector, Hne; left; reflexivity).
     rewrite (IH (clip (bisector p q) box)) at 1 by (intros q' Hq'; apply Hne; right; exact Hq'). ring.
 Qed.
